@@ -398,7 +398,7 @@ func runC03UDP(pl *plan.Plan, out *plan.Outcome) {
 		return
 	}
 	if res != "done" && out.Trouble == "" {
-		out.Trouble = "run ended: " + res
+		env.runEnded(res, out)
 		return
 	}
 	out.Add("c03.delivered", int64(len(got)))
